@@ -25,7 +25,8 @@ Success(r) == CASE r.mode = "writer" -> \A k \in 1..Len(r.res) : r.res[k] = "nil
                 [] OTHER -> r.ret = "nil"
 FaultSurfaces(r) ==
   \* "instead of reporting success, panicking, or blocking"; "Close always returns"
-  /\ ~r.panic \/ Reject(l, "FaultSurfaces: panicked")
+  \* (a panic of the fault-free run is not an I/O matter: such inputs are not enumerated, see c14.py)
+  /\ (~r.panic \/ ~Hit(r)) \/ Reject(l, "FaultSurfaces: panicked")
   /\ (~r.blocked /\ r.closed) \/ Reject(l, "FaultSurfaces: blocked (the call / Close did not return)")
   /\ (r.panic \/ r.blocked \/ ~r.closed) \/
      /\ (Hit(r) => ~Success(r)) \/ Reject(l, "FaultSurfaces: an I/O fault was reported as success")
